@@ -7,7 +7,9 @@ import (
 	"fmt"
 	"go/ast"
 	"go/types"
+	"os"
 	"regexp"
+	"runtime/debug"
 	"sort"
 	"strings"
 )
@@ -177,6 +179,9 @@ func verifyFunc(w *World, fi *FuncInfo, fc *FuncContract, sweep bool) (res *Func
 	}
 	defer func() {
 		if r := recover(); r != nil {
+			if os.Getenv("GOVC_TRACE") != "" {
+				fmt.Fprintf(os.Stderr, "%s\n", debug.Stack())
+			}
 			vc.unsupportedf(fi.Decl.Pos(), "engine panic: %v", r)
 			res.Obls = vc.obls
 			res.Unsupported = vc.unsupported
@@ -289,7 +294,7 @@ func verifyFunc(w *World, fi *FuncInfo, fc *FuncContract, sweep bool) (res *Func
 	rnames := vc.resultNames(fc, sig)
 	if fc != nil {
 		for ei, en := range fc.Ensures {
-			var conj []Term
+			var conj, pcs, posts []Term
 			for _, rp := range fr.returns {
 				env := &SpecEnv{vc: vc, vars: map[string]Value{}, old: map[string]Value{}, pkg: fi.Pkg.PkgPath}
 				for k, v := range vc.entry {
@@ -314,11 +319,23 @@ func verifyFunc(w *World, fi *FuncInfo, fc *FuncContract, sweep bool) (res *Func
 				if len(rp.vals) == 1 {
 					env.vars["result"] = rp.vals[0]
 				}
-				conj = append(conj, tImp(rp.st.pc, vc.specBool(en.Expr, env)))
+				post := vc.specBool(en.Expr, env)
+				conj = append(conj, tImp(rp.st.pc, post))
+				pcs = append(pcs, rp.st.pc)
+				posts = append(posts, post)
 			}
 			label := en.Name
 			if label == "" {
 				label = fmt.Sprint(ei + 1)
+			}
+			if len(conj) > 6 {
+				// many return points (large switches): one obligation per return
+				// point keeps each query small
+				for ri := range conj {
+					pos := fi.Decl.Pos()
+					vc.oblige("post", fmt.Sprintf("%s@ret%d", label, ri+1), pos, pcs[ri], posts[ri], en.Src)
+				}
+				continue
 			}
 			vc.oblige("post", label, fi.Decl.Pos(), tBool(true), tAnd(conj...), en.Src)
 		}
@@ -445,14 +462,99 @@ func (vc *VC) queryBody(ob *Obligation) string {
 	for _, d := range vc.gassumes {
 		sb.WriteString(d + "\n")
 	}
+	// cone of influence: only assumptions connected to the goal through local
+	// symbols (name!N constants) are included. Dropping assumptions can only
+	// weaken the hypotheses, never make an invalid obligation provable.
+	goal := fmt.Sprintf("(assert %s)\n(assert (not %s))\n", ob.PC.S, ob.Cond.S)
+	rel := map[string]bool{}
+	for _, m := range localSymRe.FindAllString(goal, -1) {
+		rel[m] = true
+	}
+	for _, v := range vc.entry {
+		if t, ok := v.(Term); ok {
+			for _, m := range localSymRe.FindAllString(t.S, -1) {
+				rel[m] = true // inputs stay declared (models are read back for replay)
+			}
+		}
+	}
+	assumes := vc.assumes[:ob.NAssume]
+	syms := vc.assumeSyms(ob.NAssume)
+	included := make([]bool, len(assumes))
+	// facts guarded by a path condition that contradicts the goal's path
+	// condition (another arm of a switch, the other branch of an if) cannot
+	// contribute: they are skipped
+	excluded := make([]bool, len(assumes))
+	pcd := vc.pcDefs(ob.NAssume)
+	goalLits := pcd.literals(ob.PC.S, 0)
+	for i, a := range assumes {
+		if g := guardOf(a); g != "" {
+			if conflict(goalLits, pcd.literals(g, 0)) {
+				excluded[i] = true
+			}
+		}
+	}
+	for changed := true; changed; {
+		changed = false
+		for i := range assumes {
+			if included[i] || excluded[i] {
+				continue
+			}
+			ss := syms[i]
+			hit := len(ss) == 0
+			if d := definedSym(assumes[i]); d != "" {
+				// a definition `x!n = term` matters only if x!n is used
+				hit = rel[d]
+			} else {
+				for _, s := range ss {
+					if rel[s] {
+						hit = true
+						break
+					}
+				}
+			}
+			if hit {
+				included[i] = true
+				changed = true
+				for _, s := range ss {
+					rel[s] = true
+				}
+			}
+		}
+	}
 	for _, d := range vc.decls[:ob.NDecl] {
+		if m := localSymRe.FindString(d); m != "" && !rel[m] {
+			continue
+		}
 		sb.WriteString(d + "\n")
 	}
-	for _, a := range vc.assumes[:ob.NAssume] {
-		sb.WriteString(a + "\n")
+	for i, a := range assumes {
+		if included[i] {
+			sb.WriteString(a + "\n")
+		}
 	}
-	fmt.Fprintf(&sb, "(assert %s)\n(assert (not %s))\n", ob.PC.S, ob.Cond.S)
+	sb.WriteString(goal)
 	return sb.String()
+}
+
+var localSymRe = regexp.MustCompile(`[A-Za-z_.$'][A-Za-z0-9_.$']*![0-9]+`)
+
+// assumeSyms caches the local symbols of each assumption.
+func (vc *VC) assumeSyms(n int) [][]string {
+	vc.symMu.Lock()
+	defer vc.symMu.Unlock()
+	for len(vc.symCache) < n {
+		a := vc.assumes[len(vc.symCache)]
+		seen := map[string]bool{}
+		var out []string
+		for _, m := range localSymRe.FindAllString(a, -1) {
+			if !seen[m] {
+				seen[m] = true
+				out = append(out, m)
+			}
+		}
+		vc.symCache = append(vc.symCache, out)
+	}
+	return vc.symCache[:n]
 }
 
 var _ = ast.Inspect
